@@ -1,11 +1,13 @@
 (* C11 -- A failed or concurrent cache fill never leaves or serves a partial file.
    Fault part: proved on the model of Cache/Cache.v for every fault position (any source read, mkdir,
    create, any write with any number of bytes of its chunk stored, close, and a source that cannot be opened at
-   all during a later call), every chunk size and both store kinds.  Concurrency part (at most one copy in progress; every successful open complete):
-   the per-path mutex makes the opens of one name sequential, so the sequential theorems apply to
-   whatever order the lock admits them in; that the real lock does serialise them is exercised by the
-   harness (simultaneous copies counted), not proved (* OPEN: C11_mutex_serialises_fills *). *)
-From HP Require Import Base.Prelude Cache.Cache Cache.CacheProofs.
+   all during a later call), every chunk size and both store kinds.  Concurrency part (at most one copy in progress;
+   every successful open complete): proved on the interleaving model of Cache/CacheConc.v -- any number of openers of
+   one name, every schedule, a failure possible at every step of every fill -- as invariants of every reachable
+   state.  The model's mutex is pathlock's per-name sync.Mutex (trusted to exclude); that the real Open is this
+   protocol is checked on every run by replaying the store calls the real cache made under concurrency through the
+   model ([C11conc_check]). *)
+From HP Require Import Base.Prelude Cache.Cache Cache.CacheProofs Cache.CacheConc.
 Open Scope nat_scope.
 
 (* After ANY history of opens with ANY faults, an Open that succeeds serves the complete source bytes. *)
@@ -57,3 +59,51 @@ Example C11_nonvacuous :
   rs = [OErr; Served [1;2;3;4;5;6;7]%N; Served [1;2;3;4;5;6;7]%N].
 Proof. vm_compute. auto. Qed.
 Print Assumptions C11_nonvacuous.
+
+(* ---- concurrency: n goroutines open the same uncached name; [creach] is ANY interleaving of their steps with ANY
+   failures (source read, create, write with any part of the chunk stored, close, remove) ---- *)
+
+(* at most one copy of that file is in progress at any moment *)
+Theorem C11_at_most_one_copy_in_progress : forall chs n st i j p q,
+  creach chs (ginit n) st -> nth_error (gs_pcs st) i = Some p -> nth_error (gs_pcs st) j = Some q ->
+  filling p = true -> filling q = true -> i = j.
+Proof. exact at_most_one_fill. Qed.
+Print Assumptions C11_at_most_one_copy_in_progress.
+
+(* every open that succeeds yields the complete bytes *)
+Theorem C11_concurrent_open_that_succeeds_is_complete : forall chs n st i d,
+  creach chs (ginit n) st -> nth_error (gs_pcs st) i = Some (PDone (Served d)) -> d = data chs.
+Proof. exact served_is_complete. Qed.
+Print Assumptions C11_concurrent_open_that_succeeds_is_complete.
+
+(* whenever no fill is running, the cache store holds nothing for the name, a copy that is marked incomplete, or the
+   complete bytes: no schedule and no failure leaves a partial copy that a later open would serve *)
+Theorem C11_no_partial_copy_left_unmarked : forall chs n st,
+  creach chs (ginit n) st -> (forall j p, nth_error (gs_pcs st) j = Some p -> filling p = false) -> good chs st.
+Proof. exact no_partial_left_behind. Qed.
+Print Assumptions C11_no_partial_copy_left_unmarked.
+
+(* once the complete copy is in place it stays: later opens neither rewrite it nor mark it *)
+Theorem C11_settled_copy_is_stable : forall chs st i ch st1,
+  cinv_conc chs st -> settled chs st -> cstep chs st i ch = Some st1 -> settled chs st1.
+Proof. exact settled_stable. Qed.
+Print Assumptions C11_settled_copy_is_stable.
+
+(* no deadlock on the per-path mutex: while an opener has not returned, some opener can take a step *)
+Theorem C11_some_opener_can_always_move : forall chs n st i p,
+  creach chs (ginit n) st -> nth_error (gs_pcs st) i = Some p -> (forall r, p <> PDone r) ->
+  exists j st1, cstep chs st j COk = Some st1.
+Proof. exact some_step_enabled. Qed.
+Print Assumptions C11_some_opener_can_always_move.
+
+(* Non-vacuity: three openers; opener 1 gets the mutex first and its second write fails with one byte stored, the
+   Remove fails too (mark); opener 0 then refills completely; opener 2 hits the cache. *)
+Example C11_concurrent_nonvacuous :
+  let chs := [[1;2;3]; [4;5;6]; [7]]%N in
+  let st := crun chs (ginit 3)
+     [(1, COk); (0, COk); (1, COk); (1, COk); (2, COk); (1, CFail 1); (1, CFail 0); (1, COk);
+      (0, COk); (0, COk); (0, COk); (0, COk); (0, COk); (0, COk); (0, COk); (2, COk); (2, COk); (2, COk)] in
+  gs_pcs st = [PDone (Served [1;2;3;4;5;6;7]%N); PDone OErr; PDone (Served [1;2;3;4;5;6;7]%N)]
+  /\ gs_cache st = Some [1;2;3;4;5;6;7]%N /\ gs_mark st = false /\ gs_lock st = None.
+Proof. vm_compute. repeat split. Qed.
+Print Assumptions C11_concurrent_nonvacuous.
